@@ -771,19 +771,19 @@ class BasePlaceholderManager(MpfController):
             except (TypeError, ValueError):
                 # e.g. index into an unset (None) variable or current_player outside of a game
                 raise TemplateEvalError(subscription)
-        if isinstance(node.slice, ast.Index):
-            slice_value, slice_subscript = self._eval(node.slice.value, variables, subscribe)
-            try:
-                return value[slice_value], subscription + slice_subscript
-            except ValueError:
-                raise TemplateEvalError(subscription + slice_subscript)
         if isinstance(node.slice, ast.Slice):
             lower, lower_subscription = self._eval(node.slice.lower, variables, subscribe)
             upper, upper_subscription = self._eval(node.slice.upper, variables, subscribe)
             step, step_subscription = self._eval(node.slice.step, variables, subscribe)
             return value[lower:upper:step], subscription + lower_subscription + upper_subscription + step_subscription
 
-        raise TypeError(type(node.slice))
+        # a computed index. python < 3.9 wraps it in ast.Index. later versions use the expression itself
+        index_node = node.slice.value if type(node.slice).__name__ == "Index" else node.slice
+        slice_value, slice_subscript = self._eval(index_node, variables, subscribe)
+        try:
+            return value[slice_value], subscription + slice_subscript
+        except (TypeError, ValueError):
+            raise TemplateEvalError(subscription + slice_subscript)
 
     def _eval_name(self, node, variables, subscribe):
         if node.id in ("true", "false"):
